@@ -599,7 +599,7 @@ class Interp:
         if m:
             bits, signed = INT_TYPES[m.group(2)]
             return SInt(z3.BitVecVal(int(m.group(1).replace("_", "")), bits), bits, signed)
-        m = re.fullmatch(r"(i8|i16|i32|i64|i128|isize|u8|u16|u32|u64|u128|usize)::(MIN|MAX)", c)
+        m = re.fullmatch(r"(?:core::num::<impl )?(i8|i16|i32|i64|i128|isize|u8|u16|u32|u64|u128|usize)>?::(MIN|MAX)", c)
         if m:
             bits, signed = INT_TYPES[m.group(1)]
             if m.group(2) == "MAX":
